@@ -127,6 +127,38 @@ func checkJoinProducers(c *core.Ctx) {
 	}
 	c.Floor("CLOSE", 4, "two joins with two producer goroutines each")
 	_ = n
+	// a Run that waits for its producers must make their sends cancellable: after an early stop (LIMIT, error) nobody
+	// receives any more, the producers block on their sends once the buffer is full, and the wait never returns
+	for _, typ := range []string{"StreamJoin", "OuterJoin"} {
+		fn := p.Func("execution/nodes", "(*"+typ+").Run")
+		if fn == nil {
+			continue
+		}
+		info := fn.Info()
+		key := "execution/nodes.(*" + typ + ").Run/waits for producers"
+		waits := token.NoPos
+		ast.Inspect(fn.Decl.Body, func(nd ast.Node) bool {
+			if call, ok := nd.(*ast.CallExpr); ok && p.CalleeName(info, call) == "sync.(*WaitGroup).Wait" {
+				waits = call.Pos()
+			}
+			return true
+		})
+		if waits == token.NoPos {
+			c.OK("CLOSE", key, fn.Decl.Pos(), 1, "Run does not wait for its producer goroutines, so their (plain) sends cannot keep it from returning")
+			continue
+		}
+		bare := 0
+		for _, lit := range goLits(fn.Decl.Body) {
+			core.WalkStack(lit.Body, func(nd ast.Node, stack []ast.Node) bool {
+				if ss, ok := nd.(*ast.SendStmt); ok && sendGuard(stack, ss) == "bare" {
+					bare++
+				}
+				return true
+			})
+		}
+		c.Decide(bare == 0, "CLOSE", key, waits, bare+1, "Run waits for its producers and all their sends are cancellable",
+			fmt.Sprintf("Run waits (WaitGroup.Wait) for its producer goroutines, but %d of their sends are plain channel sends: after an early stop the producers block once the channel buffer is full and Run never returns", bare))
+	}
 }
 
 // sendGuard classifies a send statement inside fn: "select+done", "in-arm", "bare".
@@ -216,6 +248,41 @@ func checkJSONSends(c *core.Ctx) {
 				return true
 			})
 		}
+	}
+	// the token scheme: a worker's result send never blocks because a token was reserved for it — which needs the
+	// result channel to hold at least as many batches as there are tokens
+	if fr := p.Func("datasources/json", "(*DatasourceExecuting).Run"); fr != nil {
+		caps := map[string]string{}
+		ast.Inspect(fr.Decl.Body, func(nd ast.Node) bool {
+			if as, ok := nd.(*ast.AssignStmt); ok && len(as.Lhs) == 1 && len(as.Rhs) == 1 {
+				if mk, ok := as.Rhs[0].(*ast.CallExpr); ok && core.ExprStr(mk.Fun) == "make" && strings.HasPrefix(core.ExprStr(mk.Args[0]), "chan ") {
+					cp := "0"
+					if len(mk.Args) == 2 {
+						cp = core.ExprStr(mk.Args[1])
+					}
+					caps[core.ExprStr(as.Lhs[0])] = cp
+				}
+			}
+			return true
+		})
+		tokenCh, resultCh := "", ""
+		for name := range caps {
+			if strings.Contains(strings.ToLower(name), "token") {
+				tokenCh = name
+			}
+		}
+		// the result channel is the one handed to the jobs
+		ast.Inspect(fr.Decl.Body, func(nd ast.Node) bool {
+			if kv, ok := nd.(*ast.KeyValueExpr); ok && core.ExprStr(kv.Key) == "outChan" {
+				resultCh = core.ExprStr(kv.Value)
+			}
+			return true
+		})
+		tc, okT := atoiStr(caps[tokenCh])
+		rc, okR := atoiStr(caps[resultCh])
+		c.Decide(tokenCh != "" && resultCh != "" && okT && okR && tc > 0 && rc >= tc, "SEL", "datasources/json.(*DatasourceExecuting).Run/token capacity", fr.Decl.Pos(), 2,
+			fmt.Sprintf("result channel holds %d batches for %d tokens", rc, tc),
+			fmt.Sprintf("every parser job is admitted against a token so that the worker's result send cannot block: the result channel (%s, capacity %s) must hold at least as many batches as there are tokens (%s, capacity %s); otherwise all workers of the shared pool can park on one query's results while a nested read waits for a worker", resultCh, caps[resultCh], tokenCh, caps[tokenCh]))
 	}
 	c.Floor("SEL", 4, "reader goroutine (token, job, done) and parser workers (results)")
 	_ = n
@@ -466,4 +533,18 @@ func checkSharedState(c *core.Ctx) {
 	}
 	c.Decide(len(counters) >= 1 && uses >= 2 && badUse == "", "SHARED", "execution/files/stdin counters", 0, uses, fmt.Sprintf("%d uses, all through sync/atomic", uses),
 		"the stdin reader counters are shared between opens and must only be touched through sync/atomic: "+badUse)
+}
+
+func atoiStr(s string) (int, bool) {
+	n := 0
+	if s == "" {
+		return 0, false
+	}
+	for _, ch := range s {
+		if ch < '0' || ch > '9' {
+			return 0, false
+		}
+		n = n*10 + int(ch-'0')
+	}
+	return n, true
 }
